@@ -176,7 +176,7 @@ theorem EngGood.evict {s : Eng M} (h : EngGood IM s) (k : H) : EngGood IM (s.evi
       · exact h.table j e' hj
     · exact h
 
-theorem ttGet_good {s : Eng M} (h : EngGood IM s) (k : H) :
+theorem ttGet_engGood {s : Eng M} (h : EngGood IM s) (k : H) :
     Sat (ttGet s k) (fun te => ∀ e, te = some e → IM e.m) := by
   unfold ttGet
   split
@@ -194,22 +194,22 @@ theorem ttGet_good {s : Eng M} (h : EngGood IM s) (k : H) :
           · exact Sat.ok (fun e he => by cases he)
       · exact Sat.error
 
-theorem load_good (o : Oracle M) {s : Eng M} (h : EngGood IM s) : EngGood IM (load o s).2 :=
+theorem load_engGood (o : Oracle M) {s : Eng M} (h : EngGood IM s) : EngGood IM (load o s).2 :=
   h.of_eq rfl rfl rfl
 
-theorem ttPut_good (o : Oracle M) {s : Eng M} (h : EngGood IM s) (k : H) :
+theorem ttPut_engGood (o : Oracle M) {s : Eng M} (h : EngGood IM s) (k : H) :
     Sat (ttPut o s k) (fun x => EngGood IM x.2) := by
   unfold ttPut
   split
   · exact Sat.ok h
   · dsimp only
     split
-    · exact Sat.ok (load_good o h)
+    · exact Sat.ok (load_engGood o h)
     · unfold ttSlotIdx
       split
       · exact Sat.error
       · split
-        · exact Sat.ok ((load_good o h).evict k)
+        · exact Sat.ok ((load_engGood o h).evict k)
         · exact Sat.error
 
 theorem respGet_mem [DecidableEq M] : ∀ (l : List (M × M)) (k v : M), respGet l k = some v → ∃ kv ∈ l, kv.2 = v := by
@@ -225,7 +225,7 @@ theorem respGet_mem [DecidableEq M] : ∀ (l : List (M × M)) (k v : M), respGet
     · obtain ⟨kv, hkv, e⟩ := ih k v h
       exact ⟨kv, List.mem_cons_of_mem _ hkv, e⟩
 
-theorem respPut_good [DecidableEq M] : ∀ (l : List (M × M)) (k v : M), (∀ kv ∈ l, IM kv.2) → IM v →
+theorem respPut_engGood [DecidableEq M] : ∀ (l : List (M × M)) (k v : M), (∀ kv ∈ l, IM kv.2) → IM v →
     ∀ kv ∈ respPut l k v, IM kv.2 := by
   intro l
   induction l with
@@ -245,17 +245,17 @@ theorem respPut_good [DecidableEq M] : ∀ (l : List (M × M)) (k v : M), (∀ k
       · subst h; exact hl (a, b) (by simp)
       · exact ih k v (fun x hx => hl x (List.mem_cons_of_mem _ hx)) hv kv h
 
-theorem recordCut_good [DecidableEq M] {s : Eng M} (h : EngGood IM s) (m : M) (hm : IM m) (mv ply : Nat) :
+theorem recordCut_engGood [DecidableEq M] {s : Eng M} (h : EngGood IM s) (m : M) (hm : IM m) (mv ply : Nat) :
     Sat (recordCut s m mv ply) (fun s' => EngGood IM s') := by
   unfold recordCut
   dsimp only
   split
   · split
     · exact Sat.error
-    · exact Sat.ok ⟨h.table, respPut_good _ _ _ h.resp hm, h.pv0⟩
+    · exact Sat.ok ⟨h.table, respPut_engGood _ _ _ h.resp hm, h.pv0⟩
   · exact Sat.ok (h.of_eq rfl rfl rfl)
 
-theorem setA_good {a : Array M} (ha : ∀ (i : Nat) (x : M), a[i]? = some x → IM x) (i : Nat) (m : M) (hm : IM m) (site : String) :
+theorem setA_engGood {a : Array M} (ha : ∀ (i : Nat) (x : M), a[i]? = some x → IM x) (i : Nat) (m : M) (hm : IM m) (site : String) :
     Sat (setA a i m site) (fun a' => ∀ (j : Nat) (x : M), a'[j]? = some x → IM x) := by
   unfold setA
   split
@@ -271,44 +271,44 @@ theorem setA_good {a : Array M} (ha : ∀ (i : Nat) (x : M), a[i]? = some x → 
     · exact ha j x hj
   · exact Sat.error
 
-theorem getA_good {a : Array M} (ha : ∀ (i : Nat) (x : M), a[i]? = some x → IM x) (i : Nat) (site : String) :
+theorem getA_engGood {a : Array M} (ha : ∀ (i : Nat) (x : M), a[i]? = some x → IM x) (i : Nat) (site : String) :
     Sat (getA a i site) (fun x => IM x) := by
   unfold getA
   split
   · rename_i x hx; exact Sat.ok (ha i x hx)
   · exact Sat.error
 
-theorem afterChild_good {σ : Type} (o : Oracle M) (a : σ) {s : Eng M} (h : EngGood IM s) :
+theorem afterChild_engGood {σ : Type} (o : Oracle M) (a : σ) {s : Eng M} (h : EngGood IM s) :
     EngGood IM (afterChild o a s).2 ∧
     ((afterChild o a s).1 = .next a ∨ (afterChild o a s).1 = .ret (none, 0)) := by
   rcases afterChild_cases o a s with e | e <;> rw [e]
-  · exact ⟨load_good o h, Or.inr rfl⟩
-  · exact ⟨load_good o h, Or.inl rfl⟩
+  · exact ⟨load_engGood o h, Or.inr rfl⟩
+  · exact ⟨load_engGood o h, Or.inl rfl⟩
 
-theorem pvInitBest_good (ply : Nat) (pv : List M) (hpv : ∀ m ∈ pv, IM m) {s : Eng M} (h : EngGood IM s) :
+theorem pvInitBest_engGood (ply : Nat) (pv : List M) (hpv : ∀ m ∈ pv, IM m) {s : Eng M} (h : EngGood IM s) :
     Sat (pvInitBest ply pv s) (fun x => EngGood IM x.2 ∧ ∀ m ∈ x.1, IM m) := by
   unfold pvInitBest
   split
   · rename_i x rest
     apply Sat.bind
-    refine (setA_good h.pv0 ply x (hpv x (by simp)) _).mono ?_
+    refine (setA_engGood h.pv0 ply x (hpv x (by simp)) _).mono ?_
     intro pv0 hpv0
     exact Sat.pure ⟨⟨h.table, h.resp, hpv0⟩, hpv⟩
   · apply Sat.bind
-    refine (getA_good h.pv0 ply _).mono ?_
+    refine (getA_engGood h.pv0 ply _).mono ?_
     intro x hx
     refine Sat.pure ⟨h, ?_⟩
     intro m hm
     simp only [List.mem_cons, List.not_mem_nil, or_false] at hm
     subst hm; exact hx
 
-theorem pvStore_good (o : Oracle M) (hash : H) (depth β : Int) (a : PvAcc M) (ha : ∀ m ∈ a.best, IM m)
+theorem pvStore_engGood (o : Oracle M) (hash : H) (depth β : Int) (a : PvAcc M) (ha : ∀ m ∈ a.best, IM m)
     {s : Eng M} (h : EngGood IM s) :
     Sat (pvStore o hash depth β a s) (fun x => EngGood IM x.2 ∧ PVGood IM x.1.1) := by
   have hpv : PVGood IM (some a.best) := fun l hl => by cases hl; exact ha
   unfold pvStore
   apply Sat.bind
-  refine (ttPut_good o h hash).mono ?_
+  refine (ttPut_engGood o h hash).mono ?_
   rintro ⟨slot?, s1⟩ hs1
   dsimp only at hs1 ⊢
   split
@@ -328,14 +328,14 @@ theorem pvStore_good (o : Oracle M) (hash : H) (depth β : Int) (a : PvAcc M) (h
       · exact Sat.pure ⟨hs1, hpv⟩
     · exact Sat.throw
 
-theorem zwStore_good (o : Oracle M) (hash : H) (depth α : Int) (a : ZwAcc M) (ha : ∀ m ∈ a.best, IM m)
+theorem zwStore_engGood (o : Oracle M) (hash : H) (depth α : Int) (a : ZwAcc M) (ha : ∀ m ∈ a.best, IM m)
     {s : Eng M} (h : EngGood IM s) :
     Sat (zwStore o hash depth α a s) (fun x => EngGood IM x.2 ∧ PVGood IM x.1.1) := by
   have hpv : PVGood IM (some a.best) := fun l hl => by cases hl; exact ha
   unfold zwStore
   dsimp only
   apply Sat.bind
-  refine (ttPut_good o h hash).mono ?_
+  refine (ttPut_engGood o h hash).mono ?_
   rintro ⟨slot?, s1⟩ hs1
   dsimp only at hs1 ⊢
   split
